@@ -224,6 +224,12 @@ def _decide(decide, ob, case, P, path, model_to_inputs, quick_only=False):
             res = None
     if res is None:
         res = decide.prove(ob.goal, cons + list(ob.pc), timeout_s=case.timeout, old_timeout_s=case.old_timeout, eq=ob.eq, rules=ob.rules, try_old=case.try_old, cert_first=case.cert_first)
+    if res.status == "unknown" and not quick_only:
+        # last chance with four times the budgets: solver timeouts are wall-clock, so on a loaded machine an obligation that
+        # normally closes in a few seconds can run out of time
+        res = decide.prove(ob.goal, cons + list(ob.pc), timeout_s=4 * case.timeout, old_timeout_s=4 * case.old_timeout, eq=ob.eq, rules=ob.rules, try_old=case.try_old, cert_first=False)
+        if res.status != "unknown":
+            res.route = res.route + "+retry"
     rec["status"] = res.status
     rec["route"] = res.route
     rec["secs"] = round(time.time() - t0, 3)
@@ -389,6 +395,10 @@ def finish(mod, modname, prop, args, seed, cases, results, t0, extra=()):
             continue
         if r["unsupported"]:
             inconclusive.append("%s: unsupported: %s" % (r["case"], r["unsupported"]))
+            if not any(c == r["case"] for c, _rec in failing):
+                # the symbolic executor cannot follow the code here; the case still gets its float64 witness search on the
+                # real code (a failure found there is a real failure; finding none leaves the case inconclusive)
+                failing.append((r["case"], {"name": "unsupported", "status": "unsupported", "candidates": [], "route": "none"}))
             continue
         if r["shard"] == 0 and r["paths"] == 0:
             inconclusive.append("%s: no feasible path" % r["case"])
@@ -456,7 +466,10 @@ def finish(mod, modname, prop, args, seed, cases, results, t0, extra=()):
                 cands.append((rec["name"], c))
         cjobs = [{"case": cname, "inputs": c, "seed": 0, "tight": True} for _n, c in cands[:60]]
         nsearch = case.search
-        cjobs += [{"case": cname, "inputs": None, "seed": seed * 100000 + 7919 + i, "special": bool(i % 2)} for i in range(nsearch)]
+        # half of the witness-search runs draw lexically special doubles - except in cases that carry a recorded known finding
+        # (those fail an obligation on the unchanged tree by definition; their search stays with ordinary magnitudes)
+        special_ok = not any(fnmatch.fnmatch(cname, k.get("case", "*")) for k in known)
+        cjobs += [{"case": cname, "inputs": None, "seed": seed * 100000 + 7919 + i, "special": bool(i % 2) and special_ok} for i in range(nsearch)]
         try:
             cres = run_concrete(modname, args.tier, cjobs)
         except Exception as e:  # noqa
